@@ -85,7 +85,8 @@ class Ctx:
         # called from an `except` block (or with exc=): an exception whose traceback never enters the package under test
         # was raised by this machinery itself -> harness error (inconclusive), not a verdict about the engine
         e = sys.exc_info()[1] if exc is None else exc     # exc=False: the exception being handled is itself the observation
-        if isinstance(e, Exception) and e.__traceback__ is not None and engine_frames(e) == 0:
+        if isinstance(e, Exception) and e.__traceback__ is not None and not getattr(e, "engine_verdict", False) \
+                and engine_frames(e) == 0:
             raise HarnessError("%s: %s" % (kind, detail)) from e
         self.stats.violation(kind, detail, dict(case or {}, index=self.index, seed=self.seed, tier=self.tier), mechanism)
         if self.verbose:
